@@ -44,6 +44,8 @@ type childCfg struct {
 	Lane  int      `json:"lane"`
 	Tail  bool     `json:"tail"`
 	Skip  []string `json:"skip"` // trigger classes of confirmed wedges / repeated crashers: not re-executed
+	// Concurrent > 0: one round of the concurrent lane (requests per client); Start is the round number
+	Concurrent int `json:"concurrent,omitempty"`
 }
 
 const (
@@ -187,6 +189,7 @@ func Main(c *run.Ctx) {
 	wg.Add(1)
 	go func() { defer wg.Done(); lane(lanes, 0, tails, true) }()
 	wg.Wait()
+	concurrentLane(c)
 	for _, e := range rdcat.Endpoints {
 		c.Floor("endpoint:"+e.Name, 1, 0)
 	}
@@ -195,6 +198,58 @@ func Main(c *run.Ctx) {
 	c.Floor("client went away mid-response", c.Pick(20, 1000), 0)
 	c.Floor("database error at row k", c.Pick(50, 2500), 0)
 	c.Floor("requests on a database whose first schema lookup fails", c.Pick(10, 500), 0)
+}
+
+// concurrentLane runs the rounds of the concurrent lane, one child each (a runtime-fatal error ends the child).
+func concurrentLane(c *run.Ctx) {
+	c.Assume("concurrent lane: 8 clients send Go-side LogQL pipelines (every registered line_format function, arguments taken from the line) and canonical requests of the other families at once; a process death in a round is attributed to the lane, not to one request")
+	rounds := c.Pick(3, 12)
+	perClient := c.Pick(25, 120)
+	var wg sync.WaitGroup
+	sem := make(chan struct{}, c.Pick(3, 4))
+	for rd := 0; rd < rounds; rd++ {
+		wg.Add(1)
+		go func(rd int) {
+			defer wg.Done()
+			sem <- struct{}{}
+			defer func() { <-sem }()
+			runConcurrentRound(c, rd, perClient)
+		}(rd)
+	}
+	wg.Wait()
+	c.Floor("requests answered while other requests were in flight", rounds*perClient*4, 0)
+}
+
+func runConcurrentRound(c *run.Ctx, rd, perClient int) {
+	out := c.RunChild(run.ChildSpec{Prop: "C12", Name: "fuzz", Cfg: childCfg{Start: 1000000 + rd, N: 1, Lane: 100 + rd, Concurrent: perClient}, Timeout: 15 * time.Minute, MemKB: memKB})
+	if out.Completed {
+		return
+	}
+	if out.TimedOut {
+		c.Undecided("child watchdog expired in the concurrent lane")
+		return
+	}
+	if out.OpenIdx < 0 {
+		c.Undecided(fmt.Sprintf("child of the concurrent lane ended (exit %d) outside the round", out.Exit))
+		c.Note("concurrent lane child ended outside the round: " + tailS(out.Stderr, 1500))
+		return
+	}
+	head, frame := deathHead(out.Stderr)
+	if head == "" {
+		head = fmt.Sprintf("exit %d (signaled %v)", out.Exit, out.Signaled)
+	}
+	if frame == "" {
+		frame = "no-qryn-frame"
+	}
+	if n := oomBlock(head); n > 0 {
+		c.Undecided("address space of the concurrent-lane child exhausted")
+		return
+	}
+	sig := "process-death/concurrent/" + frame
+	c.Violation(sig, fmt.Sprintf("the reader process died while 8 clients were sending requests at once (round %d, %d requests per client): %s at %s", rd, perClient, head, frame),
+		map[string]any{"case_index": 1000000 + rd, "concurrent": concSpec{Round: 1000000 + rd, Clients: 8, PerClient: perClient}, "stderr_tail": tailS(out.Stderr, 6000)})
+	c.Case("concurrent|death")
+	c.Cover("deaths", sig, 1)
 }
 
 var subqueryRe = regexp.MustCompile(`\[[^\]\[]*:[^\]\[]*\]`)
@@ -386,6 +441,8 @@ type fuzzer struct {
 	gone         atomic.Pointer[chan struct{}]
 	nsess        int
 	lane         int
+	// conc answers statements while no sequential case is current (the concurrent lane)
+	conc func(ctx context.Context, k rdcat.Kind, q string) rdcat.Answer
 }
 
 func (f *fuzzer) newSession() {
@@ -404,6 +461,9 @@ func (f *fuzzer) newSession() {
 		f.kinds.Store(string(k), true)
 		cs := f.cur.Load()
 		if cs == nil {
+			if f.conc != nil {
+				return f.conc(ctx, k, q).SQLRows()
+			}
 			return rdcat.OK(k, nil).SQLRows()
 		}
 		n := int(f.nstmt.Add(1)) - 1
@@ -460,6 +520,14 @@ func (f *fuzzer) quiesce(base map[string]int, openBefore int64, bound time.Durat
 	}
 }
 
+func startReader(f *fuzzer) *sqldrv.Reader {
+	rd := sqldrv.StartReader(f.reg, "")
+	rd.Server.Config.ErrorLog = log.New(f.plog, "", 0)
+	f.conns = &connTrack{active: map[string]bool{}, last: map[string]http.ConnState{}}
+	rd.Server.Config.ConnState = f.conns.hook
+	return rd
+}
+
 func Child(c *run.Ctx, name string) {
 	var cfg childCfg
 	if err := run.ChildCfg(&cfg); err != nil {
@@ -469,12 +537,13 @@ func Child(c *run.Ctx, name string) {
 	for _, s := range cfg.Skip {
 		skip[s] = true
 	}
+	if cfg.Concurrent > 0 {
+		childConcurrent(c, cfg)
+		return
+	}
 	f := &fuzzer{c: c, lane: cfg.Lane, plog: &panicLog{}}
 	f.newSession()
-	f.rd = sqldrv.StartReader(f.reg, "")
-	f.rd.Server.Config.ErrorLog = log.New(f.plog, "", 0)
-	f.conns = &connTrack{active: map[string]bool{}, last: map[string]http.ConnState{}}
-	f.rd.Server.Config.ConnState = f.conns.hook
+	f.rd = startReader(f)
 	f.cl = rdcat.NewClient(f.rd.Server.URL, clientWait)
 	// warm-up: one canonical request per family, then the baseline
 	for _, n := range []string{"loki.query_range", "prom.query_range", "tempo.search.traceql", "pyro.LabelNames"} {
@@ -963,6 +1032,18 @@ func Replay(c *run.Ctx, path string) {
 	if doc.Seed != c.Seed() {
 		fmt.Printf("the file was recorded with VERIF_SEED=%d; re-run with that seed\n", doc.Seed)
 		c.Undecided("replay needs VERIF_SEED=" + fmt.Sprint(doc.Seed))
+		return
+	}
+	if strings.Contains(doc.Sig, "/concurrent") {
+		var cd struct {
+			Case struct {
+				Concurrent concSpec `json:"concurrent"`
+			} `json:"case"`
+		}
+		json.Unmarshal(b, &cd)
+		c.Case("replay")
+		c.Case("replay|" + doc.Sig)
+		runConcurrentRound(c, cd.Case.Concurrent.Round-1000000, cd.Case.Concurrent.PerClient)
 		return
 	}
 	tail := strings.Contains(doc.Sig, "/loki.tail/")
